@@ -14,7 +14,10 @@ RULE = ("Hypothesis draws histories of open/connect/subscribe/unsubscribe/pause/
         "ready subset, writable subset and clock step; executed on the real MessageManager over the in-memory "
         "network and on the reference model. Non-trivial = a publish with >=1 expected recipient and >=1 connected "
         "non-recipient (or unwritable subscriber); distinct = (type class, addressed?, size class, #recipients, "
-        "#non-recipients, #unwritable, logger recipient?, ALL-subscriber recipient?, self-delivery?).")
+        "#non-recipients, #unwritable, logger recipient?, ALL-subscriber recipient?, self-delivery?). A second, end-to-end layer "
+        "runs 2-4 real pyrtma.Client objects (send_message / read_message, registered message classes of 0, 8, 104 and 4096 bytes) "
+        "against the manager on the same simulator and checks recipients, exactly-once, header fields and payload through the "
+        "public client API, including the client-side refusal of out-of-range destinations.")
 ASSUME = [
     "the kernel is replaced by an in-memory stream model (FIFO byte queues, FIN/RST, MSG_WAITALL semantics)",
     "publishes are identified by a tag in the first 8 payload bytes, or by send_time for payloads < 8 bytes",
@@ -55,13 +58,180 @@ def shard(seed: int, n_examples: int, max_len: int) -> Result:
     return res
 
 
+# ---- end-to-end layer: real pyrtma.Client objects on both sides ----------------------------------------
+E2E_TYPES = {2001: 8, 2002: 104, 2003: 0, 2004: 4096}
+_E2E_CLS = {}
+
+
+def e2e_classes():
+    import pyrtma
+    from pyrtma.message_base import MessageMeta
+    from pyrtma.validators import ByteArray
+
+    if _E2E_CLS:
+        return _E2E_CLS
+    for tid, size in E2E_TYPES.items():
+        ns = dict(type_id=tid, type_name=f"E2E_{tid}", type_size=size, type_source="", type_def="", type_hash=0x1000 + tid)
+        if size:
+            ns["blob"] = ByteArray(size)
+        cls = MessageMeta(f"MDF_E2E_{tid}", (pyrtma.MessageData,), ns)
+        pyrtma.message_def(cls)
+        _E2E_CLS[tid] = cls
+    return _E2E_CLS
+
+
+def e2e_case(case: dict, res: Result = None):
+    """case = {"timecode": b, "clients": [{"id": i, "logger": b}], "ops": [...]} with ops
+    ("sub"|"unsub"|"pause"|"resume", k, [types]) / ("send", k, type, dest_mod, dest_host)."""
+    import logging
+
+    from pyrtma.exceptions import InvalidDestinationHost, InvalidDestinationModule, InvalidSubscription
+    from vlib import proto as P
+    from vlib.simclient import ClientSim
+
+    classes = e2e_classes()
+    cs = ClientSim(timecode=case["timecode"], send_msg_timing=False, log_level=logging.CRITICAL + 10)
+    try:
+        cl = []
+        for spec in case["clients"]:
+            c = cs.new_client(module_id=spec["id"], timecode=case["timecode"])
+            c.connect("127.0.0.1:7111", logger_status=bool(spec["logger"]))
+            cl.append(c)
+        cs.pump()
+        subs = [set() for _ in cl]  # reference model: subscribed types (ALL as the sentinel)
+        seq = 0
+        for op in case["ops"]:
+            kind, k = op[0], op[1]
+            c = cl[k]
+            if kind in ("sub", "unsub", "pause", "resume"):
+                types = list(op[2])
+                try:
+                    {"sub": c.subscribe, "unsub": c.unsubscribe, "pause": c.pause_subscription, "resume": c.resume_subscription}[kind](types)
+                except InvalidSubscription:
+                    cs.pump()
+                    continue
+                cs.pump()
+                if kind in ("sub", "resume"):
+                    if P.ALL_MESSAGE_TYPES in types:
+                        subs[k] = {P.ALL_MESSAGE_TYPES}
+                    elif P.ALL_MESSAGE_TYPES not in subs[k]:
+                        subs[k] |= set(types)
+                else:
+                    if P.ALL_MESSAGE_TYPES in types:
+                        subs[k] = set()
+                    elif P.ALL_MESSAGE_TYPES not in subs[k]:
+                        subs[k] -= set(types)
+                continue
+            _, k, t, dm, dh = op
+            seq += 1
+            msg = classes[t]()
+            size = E2E_TYPES[t]
+            if size:
+                msg.blob = bytes(((seq * 31 + i * 7) & 0xFF) for i in range(size))
+            valid = 0 <= dm <= P.MAX_MODULES and 0 <= dh <= P.MAX_HOSTS
+            try:
+                c.send_message(msg, dest_mod_id=dm, dest_host_id=dh)
+                raised = False
+            except (InvalidDestinationModule, InvalidDestinationHost):
+                raised = True
+            if raised == valid:
+                raise Violation("e2e/dest-validation", f"send_message(dest_mod_id={dm}, dest_host_id={dh}) "
+                                f"{'raised' if raised else 'did not raise'}", case)
+            cs.pump()
+            if cs.sim.dead:
+                raise Violation("manager-died", cs.sim.dead.strip().splitlines()[-1], case)
+            for j, r in enumerate(cl):
+                got = []
+                while True:
+                    m = r.read_message(timeout=0)
+                    if m is None:
+                        # timeout 0 returns None for a filtered frame as well: look whether bytes are left
+                        if r._sock.rx:
+                            continue
+                        break
+                    if m.header.src_mod_id != 0:
+                        got.append(m)
+                eligible = (not raised) and (P.ALL_MESSAGE_TYPES in subs[j] or t in subs[j]) and \
+                    (dm == 0 or r.module_id == dm or bool(case["clients"][j]["logger"]))
+                if eligible and len(got) != 1:
+                    raise Violation("e2e/missing-or-duplicate", f"client {j} (id {r.module_id}, subscribed {sorted(subs[j])}) read {len(got)} "
+                                    f"messages after client {k} sent type {t} to module {dm} host {dh}", case)
+                if not eligible and got:
+                    raise Violation("e2e/extra", f"client {j} (id {r.module_id}, subscribed {sorted(subs[j])}) read a message of type "
+                                    f"{got[0].header.msg_type} it is not an eligible recipient of (sent to module {dm})", case)
+                for m in got:
+                    h = m.header
+                    bad = []
+                    if h.msg_type != t:
+                        bad.append(("msg_type", t, h.msg_type))
+                    if h.src_mod_id != c.module_id:
+                        bad.append(("src_mod_id", c.module_id, h.src_mod_id))
+                    if h.dest_mod_id != dm or h.dest_host_id != dh:
+                        bad.append(("dest", (dm, dh), (h.dest_mod_id, h.dest_host_id)))
+                    if h.num_data_bytes != size or bytes(m.data) != bytes(msg):
+                        bad.append(("payload", size, h.num_data_bytes))
+                    if bad:
+                        raise Violation("e2e/modified", f"message read by client {j} differs from what client {k} sent: {bad}", case)
+                if res is not None and eligible:
+                    res.count("e2e-deliveries")
+            if res is not None:
+                nrec = sum(1 for j in range(len(cl)) if (P.ALL_MESSAGE_TYPES in subs[j] or t in subs[j]))
+                res.count("e2e-sends")
+                if 0 < nrec < len(cl) and not raised:
+                    res.shape("e2e", t, 0 if dm == 0 else 1, nrec, any(x["logger"] for x in case["clients"]), k in [j for j in range(len(cl)) if t in subs[j]])
+    finally:
+        cs.close()
+
+
+def shard_e2e(seed: int, n: int) -> Result:
+    from vlib import proto as P
+
+    res = Result()
+    types = st.sampled_from(list(E2E_TYPES))
+    ids = [10, 11, 12, 0]
+
+    @st.composite
+    def cases(draw):
+        nc = draw(st.integers(2, 4))
+        clients = [{"id": ids[i] if draw(st.booleans()) else 0, "logger": draw(st.integers(0, 4)) == 4} for i in range(nc)]
+        held = [10, 11, 12, 100, 101, 102]
+        ops = []
+        for _ in range(draw(st.integers(4, 22))):
+            k = draw(st.integers(0, nc - 1))
+            if draw(st.integers(0, 2)) == 0:
+                kind = draw(st.sampled_from(["sub", "sub", "sub", "unsub", "pause", "resume"]))
+                tl = draw(st.lists(st.one_of(types, types, types, st.just(P.ALL_MESSAGE_TYPES)), min_size=1, max_size=3))
+                ops.append((kind, k, tl))
+            else:
+                ops.append(("send", k, draw(types), draw(st.sampled_from([0, 0, 0] + held + [150, 200, 201, -1])),
+                            draw(st.sampled_from([0, 0, 0, 1, 5, 6, -1]))))
+        return {"timecode": draw(st.booleans()), "clients": clients, "ops": ops}
+
+    def body(case):
+        e2e_case(case, res)
+        res.count("e2e-histories")
+
+    hyp_run(body, cases(), seed, n, res)
+    return res
+
+
+def shard_any(kind, *a):
+    return shard(*a) if kind == "raw" else shard_e2e(*a)
+
+
 def run(ctx: RunContext) -> int:
     t0 = time.time()
     n = ctx.scale(1500, 40000)
     max_len = 60 if ctx.quick else 140
-    res = run_shards(shard, [(derive_seed(ctx.seed, i), n, max_len) for i in range(16)])
+    jobs = [("raw", derive_seed(ctx.seed, i), n, max_len) for i in range(14)]
+    jobs += [("e2e", derive_seed(ctx.seed, 50 + i), ctx.scale(250, 6000)) for i in range(2)]
+    res = run_shards(shard_any, jobs)
     return conclude(ctx, res, RULE, ASSUME, t0)
 
 
 def replay_trace(trace: dict):
-    mgen.replay_history(trace, "C01")
+    if "clients" in trace:
+        trace = dict(trace, ops=[tuple(o) for o in trace["ops"]])
+        e2e_case(trace)
+    else:
+        mgen.replay_history(trace, "C01")
